@@ -150,6 +150,7 @@ func cmdCaller(f hx.Flags, r *hx.Result) {
 	callerSweep(r, ctx)
 	callerBurst(r, ctx, f.Int("bursts", 1200))
 	callerExtras(r, ctx)
+	callerDuringPanic(r, ctx)
 	log.Destroy()
 	log.VerifReset()
 }
@@ -240,6 +241,64 @@ func callerExtras(r *hx.Result, ctx context.Context) {
 		for _, rc := range sys.Appender("ca").Recs() {
 			if rc.ID == 1 && (rc.File != wf || rc.Line != wl) {
 				r.Violate("wrong-location:after-rejected-refresh", desc, "record says %q:%d, want %q:%d (the live configuration has enableCaller=%v)", rc.File, rc.Line, wf, wl, live)
+			}
+		}
+	}
+	log.VerifReset()
+}
+
+// callerDuringPanic: Record called from a deferred closure while the goroutine is panicking, with skips that denote
+// the frames above the closure: the runtime's panic machinery (skip 2) and the panicking statement (skip 3).  The frame
+// chosen by the skip argument is what runtime.Caller reports for that depth, in both lookup modes, on first use and again.
+func callerDuringPanic(r *hx.Result, ctx context.Context) {
+	for _, fast := range []bool{false, true} {
+		log.Destroy()
+		log.VerifReset()
+		sys.ResetAppenders()
+		tag := log.RegisterTag("caller_tag")
+		cfg := sys.Cfg{}
+		cfg.AddRec("ca")
+		cfg.AddLogger("lg", "Logger", "", "caller_tag", []sys.Ref{{Ref: "ca"}}, false, nil)
+		cfg["fastCaller"] = fmt.Sprint(fast)
+		if err := log.Refresh(cfg.Map(nil)); err != nil {
+			r.SetInfra("callerDuringPanic refresh: %v", err)
+			return
+		}
+		type wantT struct {
+			file string
+			line int
+		}
+		want := map[int64]wantT{}
+		once := func(round int) {
+			defer func() { _ = recover() }()
+			defer func() {
+				for k := 2; k <= 4; k++ {
+					id := int64(round*10 + k)
+					_, f, l, ok := runtime.Caller(k - 1)
+					if !ok {
+						f, l = "", 0
+					}
+					want[id] = wantT{f, l}
+					log.Record(ctx, log.InfoLevel, tag, k, log.Int("id", int(id)))
+				}
+			}()
+			panic("callerDuringPanic")
+		}
+		for round := 1; round <= 3; round++ {
+			once(round)
+		}
+		log.Destroy()
+		got := map[int64]sys.Rec{}
+		for _, rc := range sys.Appender("ca").Recs() {
+			got[rc.ID] = rc
+		}
+		for id, w := range want {
+			rc, ok := got[id]
+			r.Eval(1)
+			if !ok || rc.File != w.file || rc.Line != w.line {
+				r.Violate("wrong-location:during-panic", map[string]any{"fast": fast, "skip": id % 10, "round": id / 10},
+					"Record with skip %d from a deferred closure during a panic (fast=%v, round %d): record says %s:%d, the frame at that depth is %s:%d",
+					id%10, fast, id/10, rc.File, rc.Line, w.file, w.line)
 			}
 		}
 	}
